@@ -79,6 +79,23 @@ static long count_n(int tier)
     return n * NRECIPE * NEV;
 }
 
+/*
+ * Part O: column systems of unequal size.  For the types that are solved
+ * column by column (UE14, E12) with two or more columns, the recipe gets one
+ * more known reflect on port 2, and every reflect of a port other than the
+ * first is added before anything else: the system of the first column is
+ * exactly determined, that of the second is over-determined and begins
+ * with equations that do not determine it by themselves.
+ */
+static int g_o_uneven;
+static long count_o(int tier)
+{
+    long n = 0;
+    for (int t = 0; t < 8; ++t)
+	n += (long)ndims(tier, types[t]);
+    return n * NRECIPE;
+}
+
 static long count_main(int tier)
 {
     long n = 0;
@@ -205,7 +222,8 @@ out:
 
 static long count(int tier)
 {
-    return count_main(tier) + NPARTL + count_m(tier) + count_n(tier);
+    return count_main(tier) + NPARTL + count_m(tier) + count_n(tier)
+	+ count_o(tier);
 }
 
 static void run(int tier, long idx, vf_result *r)
@@ -213,7 +231,16 @@ static void run(int tier, long idx, vf_result *r)
     static cs_scenario sc;
     g_m_nf = 0;
     g_n_ideal = 0;
-    if (idx >= count_main(tier) + NPARTL + count_m(tier)) {
+    g_o_uneven = 0;
+    if (idx >= count_main(tier) + NPARTL + count_m(tier) + count_n(tier)) {
+	long m = idx - count_main(tier) - NPARTL - count_m(tier) -
+	    count_n(tier);
+	g_o_uneven = 1;
+	int recipe_o = vf_digit(&m, NRECIPE);
+	idx = ((((((((m * NAB + 0) * NRECIPE + recipe_o) * NEV + 0) * NAV
+				+ 0) * NPV + 0) * NKV + 2) * nnf(tier) + 0)
+		* nnet(tier) + 0) * NFILL + 0;
+    } else if (idx >= count_main(tier) + NPARTL + count_m(tier)) {
 	/* part N: the main case on the ideal instrument, predefined
 	   standards, one frequency; recipe, order and shape from the index */
 	long m = idx - count_main(tier) - NPARTL - count_m(tier);
@@ -288,8 +315,45 @@ static void run(int tier, long idx, vf_result *r)
 	vf_outcome(r, "no-such-recipe");
 	return;
     }
+    if (g_o_uneven) {
+	if (!(types[t] == VNACAL_UE14 || types[t] == VNACAL_E12) ||
+		cols < 2 || sc.nstd + 1 > CS_MAXSTD ||
+		sc.nparam + 1 > CS_MAXPARAM) {
+	    vf_desc(r, "part O: %s %dx%d has one linear system",
+		    vnacal_type_to_name(types[t]), rows, cols);
+	    vf_outcome(r, "n/a: one linear system");
+	    return;
+	}
+	/* one more reflect on port 2 ... */
+	cs_param q;
+	cs_std *st = &sc.std[sc.nstd];
+	memset(&q, 0, sizeof(q));
+	q.kind = CSP_SCALAR; q.handle = -1; q.c0 = 0.4 - 0.3 * I;
+	sc.param[sc.nparam] = q;
+	memset(st, 0, sizeof(*st));
+	st->entry = CSE_SINGLE; st->np = 1; st->port[0] = 2;
+	st->sp[0] = sc.nparam++;
+	st->id = 900;
+	++sc.nstd;
+	/* ... the reflects of the ports after the first come first, and
+	   the two-port standards other than the throughs are left out (the
+	   first column then has as many equations as unknowns) */
+	static cs_std tmp[CS_MAXSTD];
+	int n = 0;
+	for (int pass = 0; pass < 2; ++pass)
+	    for (int k = 0; k < sc.nstd; ++k) {
+		int early = sc.std[k].np == 1 && sc.std[k].port[0] >= 2;
+		if (sc.std[k].np == 2 && sc.std[k].sp[1] >= 0)
+		    continue;
+		if (early == (pass == 0))
+		    tmp[n++] = sc.std[k];
+	    }
+	memcpy(sc.std, tmp, sizeof(tmp[0]) * (size_t)n);
+	sc.nstd = n;
+    }
     cs_describe(&sc, desc, sizeof(desc));
     vf_desc(r, "%snet=%d ev=%d av=%d pv=%d kv=%d%s first-handle=%d %s",
+	    g_o_uneven ? "part O (column systems of unequal size) " :
 	    g_n_ideal ? "part N (ideal instrument) " :
 	    g_m_nf > 0 ? "part M (tables of the calibration's point count and "
 	    "end points, other points between) " : "", net, ev,
